@@ -5,7 +5,7 @@
    srt  : what sort.Slice / slices.SortFunc do - ANY function returning a sorted permutation (not stable)
    ops  : the insertions uploadInputDir makes into the dirBuilder, in the order it makes them
    build: dirBuilder.Build = walk from the root: (messages sent, root message); root_digest = H root. *)
-From PlzV Require Import Base.Harness Model.C28 Proof.C28 Proof.C28_Ops Proof.C28_Gen Proof.C28_Disjoint Proof.C28_Action Gen.DirWalk.
+From PlzV Require Import Base.Harness Model.C28 Proof.C28 Proof.C28_Ops Proof.C28_Conc Proof.C28_Memo Proof.C28_Gen Proof.C28_Disjoint Proof.C28_Action Gen.DirWalk.
 From Coq Require Import Permutation.
 
 (* what must hold of every set of declarations a file system can hold (realizable: names and path
@@ -123,7 +123,61 @@ Theorem C28_tie : forall srt d, interp srt walk_prog d = finish srt d.
 Proof. exact gen_walk_is_finish. Qed.
 Print Assumptions C28_tie.
 
+(* ---- follow-up round 2: the digests depend on nothing BUT the inputs and the command ---- *)
+
+(* Not on what the other build workers are doing: N goroutines prepare actions on the one Client (digestMessage is the
+   program gotrans regenerates from the source, interpreted step by step), in ANY interleaving.  Goroutine i only ever
+   holds digests of its own messages, and once it has had its nine steps the digest it returns is action_digest d. *)
+Theorem C28_conc :
+  forall (H : dirmsg -> str) (HC : cmdmsg -> str) (HA : actmsg -> str) (srt : sorter) (quote : str -> str) (c : conf)
+         (ds : list decl) (sched : list nat) (i : nat) (d : decl) (t : thread),
+    nth_error ds i = Some d ->
+    nth_error (snd (conc_run (hm H HC HA) gen_digest_prog (map (decl_job H srt quote c) ds) sched)) i = Some t ->
+    (forall root, option_map snd (build H srt (d_ops d)) = Some root ->
+       exists k, t_done t = firstn k (action_digests (hm H HC HA) root (command_of srt quote c d root) (d_timeout d)
+                                                     (target_platform (d_labels d) (f_plat c))))
+    /\ ((9 <= count_occ Nat.eq_dec sched i)%nat -> forall dg, action_digest H HC HA srt quote c d = Some dg -> last (t_done t) [] = dg).
+Proof. exact gen_conc_action_digest. Qed.
+Print Assumptions C28_conc.
+
+(* Not on what happened earlier in the process: over every history of file-system repairs (a path that holds nothing
+   readable changes) and preparations, with PathHasher.Hash's memo store as the source has it, each preparation yields
+   the insertions - hence the input-root digest - that a process with an empty memo computes at that moment. *)
+Theorem C28_memo :
+  forall (h : list pstep) (fs : fsys) (mm : memo), memo_inv fs mm -> repairs_only fs h ->
+    run_hist hash_memo_store_guarded fs mm h = fresh_hist hash_memo_store_guarded fs h
+    /\ forall (H : dirmsg -> str) (srt : sorter) (fixed : list op),
+         map (option_map (fun ops => root_digest H srt (ops ++ fixed))) (run_hist hash_memo_store_guarded fs mm h)
+         = map (option_map (fun ops => root_digest H srt (ops ++ fixed))) (fresh_hist hash_memo_store_guarded fs h).
+Proof.
+  exact (fun h fs mm Hi Hr =>
+           conj (gen_memo_history_fresh h fs mm Hi Hr)
+                (fun H srt fixed => f_equal (map (option_map (fun ops => root_digest H srt (ops ++ fixed)))) (gen_memo_history_fresh h fs mm Hi Hr))).
+Qed.
+Print Assumptions C28_memo.
+
 (* ---- non-vacuity ---- *)
+
+(* C28_conc: two goroutines, an interleaving that alternates inside every digestMessage call; both end with their own
+   sequential action digest.  And the statement is not true of every program: with the buffer on the Client
+   (shared_prog) the very first digest of goroutine 0 is the digest of goroutine 1's input root. *)
+Example C28_conc_nonvacuous :
+  let sched := [0; 1; 0; 1; 0; 1; 1; 0; 1; 0; 0; 1; 0; 1; 0; 1; 1; 0]%nat in
+  map (fun t => t_done t) (snd (conc_run race_HM gen_digest_prog race_jobs sched))
+  = [[s "Done"; s "Co1"; s "A(Co1,Done)"]; [s "Dtwo"; s "Co2"; s "A(Co2,Dtwo)"]]
+  /\ count_occ Nat.eq_dec sched 0%nat = 9%nat
+  /\ option_map (@t_done) (nth_error (snd (conc_run race_HM shared_prog race_jobs race_sched)) 0) = Some [s "Dtwo"].
+Proof. vm_compute. repeat split. Qed.
+
+(* C28_memo: the history of the seeded fault (unreadable, prepare, repaired, prepare) satisfies the hypotheses; the
+   second preparation carries the real digest; with an unguarded store it carries the sum of nothing. *)
+Example C28_memo_nonvacuous :
+  memo_inv fs_empty memo_empty /\ repairs_only fs_empty stale_hist
+  /\ run_hist hash_memo_store_guarded fs_empty memo_empty stale_hist = [None; Some [AddFile [s "pkg"] (FN (s "data.txt") (s "real") false)]]
+  /\ run_hist false fs_empty memo_empty stale_hist = [None; Some [AddFile [s "pkg"] (FN (s "data.txt") (s "sum-of-nothing") false)]].
+Proof.
+  split; [apply memo_inv_empty|]. split; [exact (proj1 unguarded_memo_stale)|]. vm_compute. repeat split.
+Qed.
 
 (* the refutation witness is a realizable set, of the known class, and the two orders really differ *)
 Example C28_refuted_witness :
